@@ -87,7 +87,7 @@ def run_property(spec, tier, seed):
             if seen_per_group[grp] > spec.get("replays_per_group", 2):
                 continue
             vals = symx.model_to_values(ob["m"] or {})
-            if vals is None or not ob["m"]:
+            if vals is None or ob["m"] is None:
                 not_reproduced.append((lf, ob, "model not rational / absent"))
                 continue
             recs.append(values_record(by_id[lf["sk"]], vals, lf))
